@@ -252,12 +252,19 @@ func RunC20(ctx *core.Ctx) *core.Violation {
 	}
 	before := pkgState()
 
+	// Phase order. Normally: solo, interleaved, solo in reverse. In a young process (the
+	// fresh-process re-executions) the interleaved phase comes FIRST, so that whatever the
+	// library does only once per process (fill a table, adjust a default) happens while
+	// the tasks are concurrent instead of in the solo phase before them. The order is not
+	// part of the event log: events are emitted in a fixed order after the phases.
+	interFirst := ctx.Env["fresh"] == "1"
 	solo1 := make([][]byte, n)
-	for i := range ins {
-		solo1[i] = runWorkload(ins[i])
-		ctx.L.Ev("solo", int64(i), int64(hashBytes(solo1[i])>>1))
-		if bytes.HasPrefix(lastLine(solo1[i]), []byte("PANIC")) {
-			ctx.Count("probe_workload_panics")
+	runSolo1 := func() {
+		for i := range ins {
+			solo1[i] = runWorkload(ins[i])
+			if bytes.HasPrefix(lastLine(solo1[i]), []byte("PANIC")) {
+				ctx.Count("probe_workload_panics")
+			}
 		}
 	}
 	inter := make([][]byte, n)
@@ -266,9 +273,19 @@ func RunC20(ctx *core.Ctx) *core.Violation {
 		i := i
 		bodies[i] = func() { inter[i] = runWorkloadAfter(ins[i], decoy1[i]) }
 	}
+	if !interFirst {
+		runSolo1()
+	}
 	sr := sched.Run(t, bodies)
 	if sr.Stuck != "" {
 		panic("harness: scheduler watchdog: " + sr.Stuck)
+	}
+	if interFirst {
+		runSolo1()
+		ctx.Count("probe_interleaved_phase_first")
+	}
+	for i := range ins {
+		ctx.L.Ev("solo", int64(i), int64(hashBytes(solo1[i])>>1))
 	}
 	for _, ev := range sr.Schedule {
 		ctx.L.Ev("sched", int64(ev>>8), int64(ev&0xff))
@@ -319,7 +336,7 @@ func RunC20(ctx *core.Ctx) *core.Violation {
 	if fresh {
 		i := t.Draw(n)
 		cmd := exec.Command(ctx.Env["self"], "solo", strconv.Itoa(ins[i].kind), strconv.Itoa(ins[i].opt), hex.EncodeToString(ins[i].data))
-		cmd.Env = append(cmd.Environ(), "GORACE=halt_on_error=1 exitcode=66")
+		cmd.Env = append(cmd.Environ(), "GORACE=halt_on_error=1 exitcode=66 atexit_sleep_ms=0")
 		out, err := cmd.Output()
 		if err != nil {
 			panic(fmt.Sprintf("harness: fresh-process execution failed: %v", err))
